@@ -104,5 +104,5 @@ pub fn semilegal_gen_exact<S: Src, const SIDE: u8, const G: u8, const KP: u32, c
     vassert!("generator yields each pseudo-legal move of its class exactly once and nothing else", sink.count == want as u32);
     vassert!("no more than 256 moves generated", sink.total <= 256);
     vcover!("target generated", want);
-    vcover!("target semilegal but outside the class", semilegal_ref(&p, m) && !class_ref(&p, m, G));
+    vcover!("target semilegal but outside the class (class generators)", G == G_ALL || (semilegal_ref(&p, m) && !class_ref(&p, m, G)));
 }
